@@ -507,3 +507,12 @@ package collection
 //@ func NewSafeMap
 //@   prop C10
 //@   ensures [empty-and-well-formed] smOK(result) && forallk(k, int, !smHas(result, k)) && fresh(result)
+// SafeMap.Range: under the read lock, every entry of both generations is offered to f with its own value until f
+// says stop; the map is not changed by the walk itself.
+//@ func (*SafeMap).Range
+//@   prop C10, C17
+//@   requires m != nil
+//@   loop 1 iteration-ensures [entry-offered-as-it-is-and-goes-on-only-after-a-yes] calls(f) == 1 && ret(f) && arg(f, 0) == k && arg(f, 1) == v
+//@   loop 2 iteration-ensures [entry-offered-as-it-is-and-goes-on-only-after-a-yes] calls(f) == 1 && ret(f) && arg(f, 0) == k && arg(f, 1) == v
+//@   ensures [walk-under-the-read-lock] calls(on("lock", m.lock)) == 1 && calls(on("unlock", m.lock)) == 1
+//@   modifies nothing
